@@ -63,8 +63,10 @@ Section Poseidon.
     destruct (Nat.eqb (length inpBI) 0) eqn:E0; [reflexivity|].
     destruct (Nat.ltb 16 (length inpBI)) eqn:E1; [reflexivity|]. cbn [orb].
     destruct (negb (Utils.CheckBigIntArrayInField Gen.CurveConsts.Q inpBI)); [reflexivity|].
-    rewrite Z.gtb_ltb.
-    destruct ((nOuts <? 1) || (Z.of_nat (S (length inpBI)) <? nOuts)); [reflexivity|].
+    (* the nOuts guard, whatever its boolean spelling (a || b, !(!a && !b), ...) *)
+    rewrite ?Z.gtb_ltb, ?Z.geb_leb, ?Z.leb_antisym.
+    destruct (nOuts <? 1) eqn:EA; destruct (Z.of_nat (S (length inpBI)) <? nOuts) eqn:EB;
+      cbn [orb andb negb]; try reflexivity.
     rewrite gen_utils_CheckBigIntInField_eq.
     apply Nat.eqb_neq in E0. apply Nat.ltb_ge in E1.
     destruct (nth_error tables (S (length inpBI) - 2)) as [[[[[RP C] S_] M] P]|] eqn:En.
